@@ -322,8 +322,12 @@ def check_case(ctx, case):
                     res = L.jack_matmul(*mats)
                     sub = None
                 else:
-                    sub = case['subscripts']
-                    if sub == 'ii->':
+                    sub_given = case['subscripts']
+                    # numpy's implicit mode (no '->'): the output carries the indices that occur once, alphabetically
+                    sub = {'ij,jk': 'ij,jk->ik', 'ij,j': 'ij,j->i', 'ii': 'ii->', 'ji': 'ji->ij'}.get(sub_given, sub_given)
+                    if sub == 'ji->ij':
+                        mats = [mats[0]]
+                    elif sub == 'ii->':
                         mats = [mat(n, n, cplx)]
                     elif sub == 'ij,j->i':
                         mats = [mats[0], mats[1][:, 0]]
@@ -331,8 +335,10 @@ def check_case(ctx, case):
                         mats = [mats[0], mat(dims[0], dims[1], cplx)]
                     else:
                         mats = mats[:2]
-                    res = L.einsum(sub, *mats)
-                if sub is None or sub == 'ij,jk->ik':
+                    res = L.einsum(sub_given, *mats)
+                if sub == 'ji->ij':
+                    ref = mats[0].T
+                elif sub is None or sub == 'ij,jk->ik':
                     ref = mats[0]
                     for B in mats[1:]:
                         ref = ref @ B
@@ -376,7 +382,7 @@ def check_case(ctx, case):
 
 def gen_case(ctx):
     rng = ctx.rng
-    what = rng.choice(['matmul', 'matmul', 'matmul', 'inv', 'inv', 'det', 'cholesky', 'eigh', 'pinv', 'svd', 'jack', 'jack', 'einsum'])
+    what = rng.choice(['matmul', 'matmul', 'matmul', 'inv', 'inv', 'det', 'cholesky', 'eigh', 'pinv', 'svd', 'jack', 'jack', 'einsum', 'einsum'])
     n = rng.randint(1, 4)
     case = {'what': what, 'seed': rng.getrandbits(28), 'n': n, 'p_num': rng.choice([0.0, 0.15, 0.3])}
     case['mode'] = rng.choice(['subsets', 'sublists'])
@@ -404,7 +410,7 @@ def gen_case(ctx):
         case['cplx'] = rng.random() < 0.4
         case['plain'] = rng.choice([None, None, 1])
         if what == 'einsum':
-            case['subscripts'] = rng.choice(['ij,jk->ik', 'ii->', 'ij,j->i', 'ij,ij->ij'])
+            case['subscripts'] = rng.choice(['ij,jk->ik', 'ii->', 'ij,j->i', 'ij,ij->ij', 'ij,jk', 'ij,j', 'ii', 'ji', 'ji->ij'])
             case['plain'] = None
     return case
 
